@@ -1800,7 +1800,7 @@ func (p *Parser) parseExpression(prec OpPrec) IExpr {
 		}
 		p.next()
 		left = &UnaryExpr{PreIncrToken, p.parseExpression(OpUnary)}
-		precLeft = OpUnary
+		precLeft = OpUpdate // an UpdateExpression: it can be the base of **
 	case DecrToken:
 		if OpUpdate < prec {
 			p.fail("expression")
@@ -1808,7 +1808,7 @@ func (p *Parser) parseExpression(prec OpPrec) IExpr {
 		}
 		p.next()
 		left = &UnaryExpr{PreDecrToken, p.parseExpression(OpUnary)}
-		precLeft = OpUnary
+		precLeft = OpUpdate // an UpdateExpression: it can be the base of **
 	case AwaitToken:
 		// either accepted as IdentifierReference or as AwaitExpression
 		if p.await && prec <= OpUnary {
